@@ -112,7 +112,13 @@ def check(ctx: Ctx, ev: Evidence) -> list[Finding]:
                     prev = [y for y in evs[:i] if y.kind == "env" and y.name == "vfs.is_directory"]
                     guard_ok = bool(prev) and prev[-1].args[-1] == ("ret", True) and repr(prev[-1].args[0]) in rep
                 k = f"file_name := {rep} in {fn}" + (" behind is_directory(same path)=True" if joined and guard_ok else "")
-                ok = pure and guard_ok and ("pkt.dest_file_name" in rep or rep == "Path()")
+                # joined component: the BASE name of the source file (a full source path would leave the destination directory,
+                # an absolute one replaces it altogether)
+                import re as _re
+                base_ok = ("source_file_name" not in rep) or bool(_re.search(r"source_file_name\)*\.name", rep))
+                if joined and not base_ok:
+                    k = f"file_name := {rep} in {fn}: source name joined without reduction to its base name"
+                ok = pure and guard_ok and base_ok and ("pkt.dest_file_name" in rep or rep == "Path()")
                 if once(k):
                     ev.inst("C05-R2", k, "ok" if ok else "violation", x.site)
                     if not ok:
